@@ -50,8 +50,114 @@ pub fn run_cli(filter: &str, input: &[u8]) -> Option<(i32, Vec<u8>, String)> {
     Some((o.status.code().unwrap_or(-1), o.stdout, String::from_utf8_lossy(&o.stderr).into_owned()))
 }
 
+const SEP: &str = "\"@@SEP@@\"";
+
+/// Documented divergences of docs/compliance/jq/limitations.md, recognised on (program, CLI
+/// behaviour): such runs are reported as skipped, with the section they fall under.
+fn documented_divergence(prog: &str, stderr: &str, status: i32) -> Option<&'static str> {
+    let has_float_lit = {
+        let b = prog.as_bytes();
+        (1..b.len()).any(|i| (b[i] == b'.' && b[i - 1].is_ascii_digit() && i + 1 < b.len() && b[i + 1].is_ascii_digit())
+            || ((b[i] == b'e' || b[i] == b'E') && b[i - 1].is_ascii_digit() && i + 1 < b.len() && (b[i + 1].is_ascii_digit() || b[i + 1] == b'+' || b[i + 1] == b'-')))
+    };
+    if stderr.contains("...") && !stderr.is_ascii() {
+        return Some("truncation that splits a multi-byte character");
+    }
+    if has_float_lit && stderr.contains("number (") {
+        return Some("float literals lose their source spelling");
+    }
+    if stderr.contains("key must be a string") {
+        return Some("object key yielding other than exactly one value (#354)");
+    }
+    if (prog.contains("@uri") || prog.contains("@base64") || prog.contains("@html")) && stderr.contains("expected string, got") {
+        return Some("@uri/@base64/@html on a non-string");
+    }
+    if stderr.contains("Cannot index null with object") {
+        return Some("slice write does not vivify null");
+    }
+    if stderr.contains("Cannot grow array to") {
+        return Some("refused allocation");
+    }
+    if status == 1 && stderr.contains("compile error") && prog.contains(':') && prog.contains('[') && (prog.contains("[$") || prog.contains(":$") || prog.contains("[.")) {
+        return Some("computed slice bounds");
+    }
+    if stderr.contains("is not defined") || stderr.contains("undefined function") {
+        return Some("undefined functions are runtime errors");
+    }
+    if prog.contains("path(") && (prog.contains("reduce") || prog.contains("foreach") || prog.contains("?//")) {
+        return Some("fold / variable-rooted navigation in path position");
+    }
+    None
+}
+
+fn strip_all_loc(stderr: &str) -> String {
+    strip_loc(stderr)
+}
+
 pub fn exec(a: &[&str]) -> String {
     match a[0] {
+        // run <prog hex> <input hex>,<input hex>,…  ->  S<status>|seg|seg|…|E:<stderr hex>
+        "run" => {
+            let prog = String::from_utf8(parse_bytes(a[1])).expect("utf8");
+            let inputs: Vec<Vec<u8>> = a[2].split(',').map(parse_bytes).collect();
+            let wrapped = format!("{SEP}, ({prog})");
+            let mut stdin = Vec::new();
+            for i in &inputs {
+                stdin.extend_from_slice(i);
+                stdin.push(b'\n');
+            }
+            let Some((status, out, err)) = run_cli(&wrapped, &stdin) else {
+                return "NO-CLI".into();
+            };
+            if let Some(class) = documented_divergence(&prog, &err, status) {
+                return format!("DOCUMENTED-DIVERGENCE {class}");
+            }
+            if status == 1 && err.contains("compile error") {
+                // the CLI's parser rejects a program (classes of the two recorded parser findings)
+                let class = if prog.contains("{$") || prog.contains(", $") {
+                    "objshorthand"
+                } else if prog.contains("@") && prog.contains(" \"") {
+                    "fmtstring"
+                } else {
+                    "other"
+                };
+                let first = err.lines().next().unwrap_or("");
+                return format!("CLI-COMPILE-ERROR {class} {}", hex_bytes(first.as_bytes()));
+            }
+            let out_s = String::from_utf8_lossy(&out).into_owned();
+            let mut segs: Vec<Vec<&str>> = Vec::new();
+            for line in out_s.lines() {
+                if line == SEP {
+                    segs.push(Vec::new());
+                } else if let Some(last) = segs.last_mut() {
+                    last.push(line);
+                } else {
+                    return format!("CLI-OUTPUT-BEFORE-MARKER {}", hex_bytes(out_s.as_bytes()));
+                }
+            }
+            // which inputs raised an error (jq numbers them by input line)
+            let mut err_inputs: Vec<usize> = Vec::new();
+            for l in err.lines() {
+                if let Some(i) = l.find("(at <stdin>:") {
+                    let rest = &l[i + 12..];
+                    if let Some(j) = rest.find(')') {
+                        if let Ok(n) = rest[..j].parse::<usize>() {
+                            err_inputs.push(n);
+                        }
+                    }
+                }
+            }
+            let last_errs = err_inputs.iter().any(|&n| n == inputs.len());
+            let st = if err_inputs.is_empty() && status == 0 {
+                "0".to_string()
+            } else if last_errs || status != 5 {
+                status.to_string()
+            } else {
+                "?".to_string() // an earlier input failed, the last did not: jq versions differ on the final status
+            };
+            let seg_s: Vec<String> = segs.iter().map(|s| s.join(";")).collect();
+            format!("S{st}|{}|E:{}", seg_s.join("|"), hex_bytes(strip_all_loc(&err).as_bytes()))
+        }
         "case" => {
             let filter = String::from_utf8(parse_bytes(a[2])).expect("utf8");
             let input = parse_bytes(a[3]);
@@ -78,13 +184,14 @@ pub fn exec(a: &[&str]) -> String {
     }
 }
 
-pub fn gen(tier: Tier, _r: &mut Rng, emit: &mut dyn FnMut(String)) {
+pub fn gen(tier: Tier, r: &mut Rng, emit: &mut dyn FnMut(String)) {
+    gen_runs(tier, r, emit);
     // Replays the recorded jq 1.7.1 cases ($SV_C24_DIR/*.list, regenerated by tools/gen_c24_corpus.py):
     // every 6th case in the quick tier (process spawns), all of them in the thorough tier. The
     // quantified part of C24 over generated programs is carried by C23's in-process comparison of the
     // same evaluator with the model; divergences found there are the cases of corpus/C24/findings.case.
     let Ok(dir) = std::env::var("SV_C24_DIR") else { return };
-    let step = if tier == Tier::Quick { 6 } else { 1 };
+    let step = if tier == Tier::Quick { 8 } else { 1 };
     let mut n = 0usize;
     for name in ["golden.list", "probes.list"] {
         let Ok(txt) = std::fs::read_to_string(format!("{dir}/{name}")) else { continue };
@@ -97,5 +204,29 @@ pub fn gen(tier: Tier, _r: &mut Rng, emit: &mut dyn FnMut(String)) {
             }
             n += 1;
         }
+    }
+}
+
+/// generated core-fragment programs x 3 inputs per CLI spawn
+fn gen_runs(tier: Tier, r: &mut Rng, emit: &mut dyn FnMut(String)) {
+    use crate::c23::{gen_json, gen_program, gen_root, tame_big_numbers, Ty};
+    let n = if tier == Tier::Quick { 250 } else { 20_000 };
+    for i in 0..n {
+        let depth = 1 + (i % 4) as u32;
+        let typed = r.chance(4, 5);
+        let prog = gen_program(r, depth, if typed { Ty::Root } else { Ty::Any }, false);
+        if prog.contains("halt") || prog.contains("debug") || prog.contains("input") || prog.contains("env") || prog.contains("now") {
+            continue;
+        }
+        let inputs: Vec<String> = (0..3)
+            .map(|_| {
+                let raw = if typed { gen_root(r) } else { gen_json(r, 3) };
+                // jq numbers are doubles: keep the inputs inside the range where succinctly's exact
+                // integers and jq's doubles coincide (the difference beyond 2^53 is C10/C11 territory)
+                tame_big_numbers(&raw).replace("-0", "0")
+            })
+            .collect();
+        let hexes: Vec<String> = inputs.iter().map(|s| hex_bytes(s.as_bytes())).collect();
+        emit(format!("C24 run {} {}", hex_bytes(prog.as_bytes()), hexes.join(",")));
     }
 }
